@@ -117,6 +117,27 @@ template <class X> void run(Ctx& c, const StrVec& fam) {
         if (e1 || e2) c.violation("C11", fmt("equals/%s/wide-character-equal-to-its-low-byte", X::tag()), fmt("a=\"%s\" b = a with one character or-ed with 0x100/0x10000: equals=%d/%d", esc(box[i]->srcText).c_str(), e1, e2));
         else c.count("wide_modified_differs");
     }
+    // what a failed make-owner / normalise leaves behind (components reverted to NULL, an address block without host text ...) is still a
+    // structure, and comparing two of them is still component-wise identity
+    {
+        Ledger fl; std::vector<std::unique_ptr<UriBox<X>>> dmg;
+        for (size_t i = 0; i < n && dmg.size() < 6; i++) {
+            std::unique_ptr<UriBox<X>> d(new UriBox<X>()); if (d->parse(box[i]->srcText, &fl) != URI_SUCCESS) continue;
+            fl.arm((long)(1 + (c.case_index + i) % 5), (i & 1) != 0); int rc; { LibScope ls; rc = (i & 2) ? X::NormalizeSyntaxExMm(&d->u, 63, fl.mgr()) : X::MakeOwnerMm(&d->u, fl.mgr()); }
+            bool hit = fl.failed > 0; fl.fail_at = 0; fl.fail_from = false; fl.failed = 0;
+            if (hit && rc != URI_SUCCESS) dmg.push_back(std::move(d));
+        }
+        for (size_t i = 0; i < dmg.size(); i++) {
+            for (size_t j = 0; j < dmg.size(); j++) { int r; { LibScope ls; r = X::EqualsUri(&dmg[i]->u, &dmg[j]->u); } c.evaluations++;
+                bool same = struct_key<X>(dmg[i]->u) == struct_key<X>(dmg[j]->u);
+                if ((r != 0) != same) c.violation("C11", fmt("equals/%s/after-failed-operation/%s", X::tag(), r ? "equal-but-a-component-differs" : "all-components-identical-not-equal"), fmt("a: failed operation on \"%s\"; b: failed operation on \"%s\"", esc(dmg[i]->srcText).c_str(), esc(dmg[j]->srcText).c_str()));
+                else c.count("after_failed_operation_pairs_agree"); }
+            for (size_t j = 0; j < n && j < 8; j++) { int r; { LibScope ls; r = X::EqualsUri(&dmg[i]->u, &box[j]->u); } c.evaluations++;
+                bool same = struct_key<X>(dmg[i]->u) == struct_key<X>(box[j]->u);
+                if ((r != 0) != same) c.violation("C11", fmt("equals/%s/after-failed-operation-vs-parsed/%s", X::tag(), r ? "equal-but-a-component-differs" : "all-components-identical-not-equal"), fmt("a: failed operation on \"%s\"; b=\"%s\"", esc(dmg[i]->srcText).c_str(), esc(box[j]->srcText).c_str())); }
+        }
+        dmg.clear(); fl.release_all();
+    }
     if (n) {
         int a, b2, d; { LibScope ls; a = X::EqualsUri(nullptr, nullptr); b2 = X::EqualsUri(&box[0]->u, nullptr); d = X::EqualsUri(nullptr, &box[0]->u); }
         c.evaluations += 3;
